@@ -372,7 +372,7 @@ class C19(Check):
     technique = "exhaustive crash-point enumeration (fork + os._exit at every traced file-system call / SQL statement) + Hypothesis-generated file contents with byte/row oracles"
     assumptions = ["a killed process leaves the files exactly as they are at the crash event", "stray temporary files next to the target are allowed"]
     quick = dict(examples=6000, workers=8)
-    thorough = dict(examples=20000, workers=16)
+    thorough = dict(examples=200000, workers=16)
 
     def strategy(self, tier):
         return st.tuples(case_strategy, entry_strategy)
